@@ -227,7 +227,9 @@ func runMatchD2(r *Run, twoRouters bool, hosts bool) {
 					hv = []string{host + ":8080", host + ".", "x." + host, host + ".x", host[1:]}[rng.Intn(5)]
 				}
 				for who, x := range routers {
-					d.record(tab, who, x, method, hv, q)
+					r.guard(fmt.Sprintf("lookup on table %v host=%q path=%q", pats, hv, q), func() map[string]any {
+						return map[string]any{"kind": "trace", "table": pats, "host": hv, "path": q, "router": who}
+					}, func() { d.record(tab, who, x, method, hv, q) })
 				}
 			}
 		}
